@@ -168,6 +168,17 @@ class Table:
             key = canon_place(self.body, pl, {})
             if ("mem", key) in env:
                 return env[("mem", key)]
+        # `.0` of a checked arithmetic result computed on this path: the sum / difference / product itself
+        if pl["l"] in env and env[pl["l"]].kind == "bin" and len(pl["p"]) == 1 and pl["p"][0]["k"] == "field" and pl["p"][0]["idx"] == 0 \
+                and str(env[pl["l"]].a[0]).endswith("WithOverflow"):
+            op_, a_, b_ = env[pl["l"]].a
+            op_ = op_.replace("WithOverflow", "")
+            ints = [x for x in (a_, b_) if x.kind == "const" and isinstance(x.a, int) and not isinstance(x.a, bool)]
+            if len(ints) == 2:
+                return Val("const", {"Add": a_.a + b_.a, "Sub": a_.a - b_.a, "Mul": a_.a * b_.a}.get(op_, 0)) if op_ in ("Add", "Sub", "Mul") else Val("bin", (op_, a_, b_))
+            if op_ == "Add" and ints and ints[0].a == 0:
+                return b_ if ints[0] is a_ else a_
+            return Val("bin", (op_, a_, b_))
         # field of a known aggregate
         if pl["l"] in env and env[pl["l"]].kind == "agg":
             v = env[pl["l"]]
@@ -361,6 +372,8 @@ class Table:
                         v = Val("agg", (norm(rv["adt"]), rv["variant"], fields))
                     elif rv.get("agg") == "tuple":
                         v = Val("agg", ("tuple", "", fields))
+                    elif rv.get("agg") == "array":
+                        v = Val("agg", ("array", "", fields))
                     else:
                         v = Val("sym", rv.get("agg"))
                 elif k == "binop":
@@ -551,6 +564,8 @@ def render(v):
         return repr(v.a)
     if v.kind == "agg":
         adt, variant, fields = v.a
+        if adt == "array":
+            return "array{%s}" % ",".join(vdesc(f) if f.kind != "agg" else render(f) for f in fields)
         nm = variant if adt != "tuple" else ""
         if fields:
             return "%s(%s)" % (nm, ", ".join(render(f) for f in fields))
